@@ -22,7 +22,9 @@ pub enum Op {
     /// write on a read end (true) / read on a write end (false): no verdict is demanded, but the streams must not change
     WrongEnd { pipe: usize, write: bool, n: u64 },
     /// read (false) / write (true) on a descriptor that is not a pipe end
-    Foreign { write: bool, fd: u64, n: u64, #[serde(default)] bad_buf: u8 },
+    /// `alias` > 0: the descriptor is a live pipe end plus a high part (k·2^32, or 2^63): equal to a pipe
+    /// end only in its low 32 bits, hence not a pipe end
+    Foreign { write: bool, fd: u64, n: u64, #[serde(default)] bad_buf: u8, #[serde(default)] alias: u8 },
 }
 
 #[derive(Clone, Debug, Serialize, Deserialize)]
@@ -38,7 +40,7 @@ impl Property for C14 {
         "C14"
     }
     fn shape(&self) -> Shape {
-        Shape::hist(2, 40, 5)
+        Shape::hist(2, 40, 7)
     }
     fn cases(&self, tier: Tier) -> u64 {
         match tier {
@@ -62,7 +64,7 @@ impl Property for C14 {
                 1 => Op::Write { pipe: t.below(4) as usize, n, seed: t.raw() },
                 2 => Op::Read { pipe: t.below(4) as usize, n, bad_buf: t.weighted(&[85, 5, 5, 5]) as u8 },
                 4 => Op::WrongEnd { pipe: t.below(4) as usize, write: t.bool(), n },
-                _ => Op::Foreign { write: t.bool(), fd: t.pick(&[0u64, 1, 2, 3, 5, 100, 1023]), n, bad_buf: t.weighted(&[60, 15, 15, 10]) as u8 },
+                _ => Op::Foreign { write: t.bool(), fd: t.pick(&[0u64, 1, 2, 3, 5, 100, 1023]), n, bad_buf: t.weighted(&[60, 15, 15, 10]) as u8, alias: t.weighted(&[80, 7, 7, 6]) as u8 },
             });
         }
         Case { ops }
@@ -280,7 +282,7 @@ impl Property for C14 {
                     }
                     last_pipe_used = Some(pi);
                 }
-                Op::Foreign { write, fd, n: len, bad_buf } => {
+                Op::Foreign { write, fd, n: len, bad_buf, alias } => {
                     let before = ax.mem_read_bytes(DATA, DLEN).unwrap();
                     // the buffer of a call that is not ours is none of the pipe handler's business
                     let buf = match bad_buf {
@@ -295,7 +297,15 @@ impl Property for C14 {
                     // "not a pipe end" is decided when the call is made: whatever numbering the handler uses,
                     // a candidate that happens to be a pipe end right now is replaced by the next free number
                     let is_end = |f: u64| pipes.iter().any(|p| p.0 == f || p.1 == f);
-                    let fd = &(*fd..*fd + 64).find(|f| !is_end(*f)).unwrap_or(*fd);
+                    let aliased = if *alias > 0 && !pipes.is_empty() {
+                        let ends: Vec<u64> = pipes.iter().flat_map(|p| [p.0, p.1]).collect();
+                        let e = ends[*fd as usize % ends.len()];
+                        classes.push("foreign-descriptor-aliasing-a-pipe-end-in-its-low-half");
+                        Some(e | if *alias == 3 { 1 << 63 } else { (*alias as u64) << 32 })
+                    } else {
+                        None
+                    };
+                    let fd = &aliased.unwrap_or_else(|| (*fd..*fd + 64).find(|f| !is_end(*f)).unwrap_or(*fd));
                     let (r, ev) = sys(&mut ax, if *write { 1 } else { 0 }, *fd, buf, *len);
                     classes.push("foreign-descriptor");
                     if let Api::Panic(p) = &r {
@@ -366,7 +376,7 @@ impl Property for C14 {
     }
 
     fn rule(&self) -> String {
-        "cases: histories of 1–39 syscalls over pipe(), write(fd,buf,n), read(fd,buf,n) on 1–4 pipes and on non-pipe descriptors {0,1,2,3,5,100,1023} (40 % of them with a buffer that runs past its area, is unmapped or NULL), n ∈ {0,1,<8,300,uniform ≤300}, 15 % of the pipe reads into a destination that cannot take the data (a refused read must not consume), 5 % calls on the wrong end of a pipe; with a user SYSCALL hook registered after handle_syscalls([Pipe]); one VecDeque per pipe is the model: count ≤ requested and ≤ available, ≥1 when both positive, exactly the next bytes, buffer beyond the count untouched, pipe calls never reach the user hook, foreign calls reach it exactly once with registers intact, every pipe is drained at the end and compared; non-trivial = write→partial read→read on one pipe, or two pipes interleaved; distinct by hash(history)".into()
+        "cases: histories of 1–39 syscalls over pipe(), write(fd,buf,n), read(fd,buf,n) on 1–4 pipes and on non-pipe descriptors ({0,1,2,3,5,100,1023} or the next number that is not a live pipe end; 20 % a live pipe end plus k·2^32 or 2^63) (40 % of them with a buffer that runs past its area, is unmapped or NULL), n ∈ {0,1,<8,300,uniform ≤300}, 15 % of the pipe reads into a destination that cannot take the data (a refused read must not consume), 5 % calls on the wrong end of a pipe; with a user SYSCALL hook registered after handle_syscalls([Pipe]); one VecDeque per pipe is the model: count ≤ requested and ≤ available, ≥1 when both positive, exactly the next bytes, buffer beyond the count untouched, pipe calls never reach the user hook, foreign calls reach it exactly once with registers intact, every pipe is drained at the end and compared; non-trivial = write→partial read→read on one pipe, or two pipes interleaved; distinct by hash(history)".into()
     }
     fn post_check(&mut self, hist: &std::collections::BTreeMap<String, u64>, _tier: Tier) -> Vec<(String, String)> {
         // at most 4 pipes = 8 descriptors out of 65 536 numbers: a random collision hits < 0.05 % of the
@@ -379,7 +389,7 @@ impl Property for C14 {
         vec![]
     }
     fn required_classes(&self, _tier: Tier) -> Vec<String> {
-        ["write-partial-read-read", "two-pipes-interleaved", "foreign-descriptor", "foreign-descriptor-awkward-buffer", "short-read", "full-read", "read-empty", "read-into-awkward-buffer", "wrong-end-call"].iter().map(|s| s.to_string()).collect()
+        ["write-partial-read-read", "two-pipes-interleaved", "foreign-descriptor", "foreign-descriptor-awkward-buffer", "short-read", "full-read", "read-empty", "read-into-awkward-buffer", "wrong-end-call", "foreign-descriptor-aliasing-a-pipe-end-in-its-low-half"].iter().map(|s| s.to_string()).collect()
     }
     fn assumptions(&self) -> Vec<String> {
         vec!["descriptor values are never compared; the 16 bytes written by pipe() are decoded as two u64, or two i32 if the upper half was left untouched".into(), "a pipe() refused while other pipes are open (the handler draws 16-bit descriptor numbers at random and refuses a collision) ends the history without a verdict; such refusals may not exceed 2 % of the histories that create a pipe beside existing ones (random collisions explain < 0.05 %); no error text is read".into(), "calls on the wrong end of a pipe get no verdict of their own (the statement does not define them); they are generated only to check that they neither inject bytes into a stream nor consume from it".into()]
